@@ -988,6 +988,30 @@ def prop_C07(ctx):
                             ctx.report(r, 'into_existing (%s) does not leave the existing value equal to what %s produces on the mapped fields, or touches another field: '
                                        '%r vs %r' % (ex, kind, me, want), 'flavour comparison on the syn-parsed bodies', key='existing-vs-into:' + kind)
     ctx.cov['flavour_pairs_compared'] = npairs
+    # bare #[parent] fields: own assignments and parent conversions must come in the same order in every Into-side flavour
+    recs3 = ctx.run_set('parents', gen.c07_parent_cases(ctx.rng, 1500 if q else 15000), obs_sem, sem=True)
+    nparent = 0
+    for r in recs3:
+        if vlib.outcome_class(r['out']) != 'ok' or not r.get('sem'):
+            continue
+        eff = {}
+        for key, imp in oracles.sem_impls(r['sem']) or []:
+            if key is not None and key[0] in ('owned_into', 'ref_into', 'owned_into_existing', 'ref_into_existing'):
+                eff[(key[0], key[1], key[2])] = oracles.body_effects(imp, key[1])
+        for cp in {k[2] for k in eff}:
+            group = sorted((k, v) for k, v in eff.items() if k[2] == cp)
+            if any(v is None for _, v in group):
+                ctx.cov['parent_bodies_unread'] = ctx.cov.get('parent_bodies_unread', 0) + 1
+                continue
+            k0, v0 = group[0]
+            for k, v in group[1:]:
+                nparent += 1
+                if v != v0:
+                    ctx.report(r, 'flavours %s%s and %s%s of one mapping do not leave the same value: the struct\'s own assignments and the flattened '
+                               '#[parent] conversions are applied in different orders / with different values: %r vs %r'
+                               % (k[0], ' (fallible)' if k[1] else '', k0[0], ' (fallible)' if k0[1] else '', v, v0),
+                               'flavour comparison on the syn-parsed bodies (order-aware)', key='parent-order:' + k[0])
+    ctx.cov['parent_flavour_pairs_compared'] = nparent
     recs2 = ctx.run_set('index_rename', gen.c01_index_perm_cases(ctx.rng, 200 if q else 2000), obs_sem, sem=True)
     for r in recs2:
         if vlib.outcome_class(r['out']) != 'ok' or not r.get('sem'):
